@@ -53,7 +53,8 @@ func (node *tagForNode) Execute(ctx *ExecutionContext, writer TemplateWriter) (f
 
 		// Update loop infos and public context
 		forCtx.Private[node.key] = key
-		if value != nil {
+		if node.value != "" {
+			// (also when there is no second value, as for sequences: the name is the loop's)
 			forCtx.Private[node.value] = value
 		}
 		loopInfo.Counter = idx + 1
